@@ -385,6 +385,63 @@ func c12Worker(c *mc.Ctx) {
 				try(&seed, fmt.Sprintf("insert %q before #%d", m, i), join(ins))
 			}
 		}
+		// line and block level: whole declarations deleted, repeated, moved, copied to the other files
+		if seed.small {
+			lines := strings.Split(strings.TrimRight(seed.files[seed.main], "\n"), "\n")
+			joinL := func(ls []string) string { return strings.Join(ls, "\n") + "\n" }
+			var others []string
+			for f := range seed.files {
+				if f != seed.main {
+					others = append(others, f)
+				}
+			}
+			sort.Strings(others)
+			tryFiles := func(mut string, files map[string]string) {
+				sd := c12Seed{name: seed.name, files: files, main: seed.main}
+				try(&sd, mut, files[seed.main])
+			}
+			withOther := func(f, extra string) map[string]string {
+				fs := map[string]string{}
+				for k, v := range seed.files {
+					fs[k] = v
+				}
+				fs[f] = strings.TrimRight(fs[f], "\n") + "\n" + extra
+				return fs
+			}
+			// spans: single lines, and @mode blocks (from the "@mode .. {" line to its "}")
+			type span struct{ a, b int } // lines[a:b]
+			var spans []span
+			for i := 0; i < len(lines); i++ {
+				spans = append(spans, span{i, i + 1})
+				if t := strings.TrimSpace(lines[i]); strings.HasPrefix(t, "@mode") && strings.HasSuffix(t, "{") {
+					for j := i + 1; j < len(lines); j++ {
+						if strings.TrimSpace(lines[j]) == "}" {
+							spans = append(spans, span{i, j + 1})
+							break
+						}
+					}
+				}
+			}
+			for _, sp := range spans {
+				if sp.b-sp.a == 1 && strings.TrimSpace(lines[sp.a]) == "" {
+					continue
+				}
+				c.Stats.Nontrivial++
+				what := fmt.Sprintf("lines %d..%d %q", sp.a+1, sp.b, lines[sp.a])
+				chunk := lines[sp.a:sp.b]
+				del := append(append([]string{}, lines[:sp.a]...), lines[sp.b:]...)
+				try(&seed, "delete "+what, joinL(del))
+				dup := append(append(append([]string{}, lines[:sp.b]...), chunk...), lines[sp.b:]...)
+				try(&seed, "repeat "+what, joinL(dup))
+				try(&seed, "repeat at the end "+what, joinL(append(append([]string{}, lines...), chunk...)))
+				try(&seed, "move to the end "+what, joinL(append(append([]string{}, del...), chunk...)))
+				try(&seed, "move to the top "+what, joinL(append(append([]string{}, chunk...), del...)))
+				for _, f := range others {
+					tryFiles("copy to "+f+" "+what, withOther(f, joinL(chunk)))
+					tryFiles("copy to "+f+" under @lexer "+what, withOther(f, "@lexer\n"+joinL(chunk)))
+				}
+			}
+		}
 		// byte level
 		text := seed.files[seed.main]
 		stepT := 1
@@ -675,7 +732,7 @@ func init() {
 	mc.Register(&mc.Check{
 		ID:    "C12",
 		Level: "fault_enumeration",
-		Rule: "deviation-bounded exploration around valid inputs (bound 1): seeds = well-formed specifications (C17's bases, a tiny expression grammar, the bundled examples; thorough: lox's own parser.lox and all examples); at EVERY token position: delete, duplicate, transpose, replace by / insert each lexeme of a menu of ~75 extremes (every keyword, every punctuation, huge and zero numbers, degenerate literals and classes, reserved and ill-formed names); every byte-level truncation; every single-byte substitution by 12 special bytes; bound 2: every pair of {delete, replace by, insert} deviations at two different tokens of the tiny expression grammar from a reduced menu of 6 (thorough: 19) lexemes; " +
+		Rule: "deviation-bounded exploration around valid inputs (bound 1): seeds = well-formed specifications (C17's bases, a tiny expression grammar, the bundled examples; thorough: lox's own parser.lox and all examples); at EVERY token position: delete, duplicate, transpose, replace by / insert each lexeme of a menu of ~75 extremes (every keyword, every punctuation, huge and zero numbers, degenerate literals and classes, reserved and ill-formed names); every declaration line and every @mode block deleted, repeated in place / at the end, moved to the end / top, copied into each other file of the specification; every byte-level truncation; every single-byte substitution by 12 special bytes; bound 2: every pair of {delete, replace by, insert} deviations at two different tokens of the tiny expression grammar from a reduced menu of 6 (thorough: 19) lexemes; " +
 			"each case runs the whole pipeline in process under recover() (front end, then - with action methods derived from the grammar object lox built - AssignActions and EmitParser); oracle: returns; success => three generated files that parse and type-check with the package; failure => at least one diagnostic; never a panic. " +
 			"Go-package axis: a finite menu of ~35 package configurations (missing/ill-typed/ill-shaped packages, stale generated files, no go.mod) run through the real binary; non-trivial = one mutation site or package configuration",
 		Assume: []string{
